@@ -11,7 +11,7 @@ import traceback
 import zlib
 
 from . import env
-from .report import (HarnessError, PropertyViolation, Recorder, Timer, canon,
+from .report import (Discard, HarnessError, PropertyViolation, Recorder, Timer, canon,
                      digest, write_evidence, write_replay)
 
 NPROC = int(os.environ.get("VERIF_NPROC", "16"))
@@ -53,7 +53,7 @@ def _guarded(check):
     def run(case):
         try:
             return check(case)
-        except (PropertyViolation, HarnessError):
+        except (PropertyViolation, HarnessError, Discard):
             raise
         except Exception as exc:      # noqa: BLE001
             tb = traceback.extract_tb(exc.__traceback__)
@@ -92,6 +92,9 @@ def _run_hypothesis_shard(sub, tier, seed, shard, n_cases):
         except PropertyViolation as exc:
             seen.append((len(canon(case)), exc, case))
             raise
+        except Discard as d:
+            rec.discard(d.reason)
+            return
         finally:
             env.clean_proc_tmp()
         rec.record(case, info)
@@ -144,6 +147,9 @@ def _run_enum_shard(sub, tier, seed, shard, nshards):
                 failures.append({"cls": exc.cls, "clause": exc.clause,
                                  "message": exc.message,
                                  "case": json.loads(canon(case))})
+            continue
+        except Discard as d:
+            rec.discard(d.reason)
             continue
         rec.record(case, info)
     rec.exhaustive = bool(exhaustive)
@@ -239,6 +245,8 @@ def run_regress(mod, prop):
         except PropertyViolation as exc:
             out.append((body["subcheck"], {"cls": exc.cls, "clause": exc.clause,
                                            "message": exc.message, "case": body["case"]}))
+        except Discard:
+            pass
     return out, n
 
 
@@ -407,6 +415,9 @@ def replay(mod_name, path):
             sys.stderr.write("replay %s: %s: %s\n" % (path, exc.clause, exc.message[:2000]))
             print("VIOLATION property=%s replay=%s" % (mod.PROPERTY, path))
             return 1
+        except Discard as d:
+            print("replay %s: inconclusive (%s)" % (path, d.reason))
+            return 0
         print("replay %s: property holds on this input" % path)
         return 0
     finally:
